@@ -30,7 +30,11 @@
 */
 
 // память для блобов выделяется страницами
+#ifdef BEE2_VERIF_BLOB_PAGE_SIZE
+#define BLOB_PAGE_SIZE BEE2_VERIF_BLOB_PAGE_SIZE
+#else
 #define BLOB_PAGE_SIZE 1024
+#endif
 
 // требуется страниц
 #define blobPageCount(size)\
